@@ -161,9 +161,9 @@ class C02(Sim):
     RULE = ("one run = one raw spec built / re-wrapped / re-built / observed by builder, re-wrapper, observer and config clients; "
             "distinct = distinct (spec class (element kinds x invalid-edge kinds x attribute storage), (path,flavour,switches) sequence); "
             "non-trivial = >= 1 build and >= 1 observation or re-wrap of a mesh with at least edges")
-    FAULT_KINDS = ["rewrap", "config_flip"]
+    FAULT_KINDS = ["rewrap", "config_flip", "failed_attempt"]
     PROBES = ["invalid_edge_filtered", "dense_edge_attr", "sparse_edge_attr", "numpy_flavour", "tuple_flavour", "hex_cells", "tet_cells",
-              "declared_faces_on_volume", "polygon_face", "file_path", "from_arrays_path", "rewrap", "switch_off_build", "query_script", "2d_padded", "peek_dimensionality", "input_lists_reused", "two_stage_build"]
+              "declared_faces_on_volume", "polygon_face", "file_path", "from_arrays_path", "rewrap", "switch_off_build", "query_script", "2d_padded", "peek_dimensionality", "input_lists_reused", "two_stage_build", "first_attempt_raised", "first_attempt_accepted"]
     QUICK_RUNS = 4000
     THOROUGH_RUNS = 400000
     BLOCK = 40
@@ -244,7 +244,8 @@ class C02(Sim):
             path = r.choice(self._paths())
             fl = r.choice(cfg["flavours"]) if path in ("raw_class", "instanciate", "two_stage") else ("numpy" if path == "from_arrays" else "file")
             return {"c": "builder", "op": "build", "path": path, "flavour": fl, "slot": "m%d" % self.nbuild, "pad2d": r.chance(0.5),
-                    "peek": r.choice([None, None, "early", "late"]), "reuse": r.chance(0.4)}
+                    "peek": r.choice([None, None, "early", "late"]), "reuse": r.chance(0.4),
+                    "retry": r.choice(["bad_edge", "config"]) if cfg["faults_on"] and r.chance(0.3) else None}
         slot = r.choice(sorted(self.slots))
         if c == "rewrapper":
             return {"c": c, "op": r.choice(["rewrap_same_class", "rewrap_instanciate", "prepare_again"]), "slot": slot, "dst": slot + "r"}
@@ -304,13 +305,33 @@ class C02(Sim):
         M = self.M
         path, fl = ev["path"], ev["flavour"]
         s = self.spec
-        if path == "raw_class":
+        if path in ("raw_class", "instanciate"):
             d = self._fill_raw(fl, ev.get("peek"), ev.get("reuse"))
-            cls = getattr(M.mesh, normal.class_name)
-            return call(cls, d)
-        if path == "instanciate":
-            d = self._fill_raw(fl, ev.get("peek"), ev.get("reuse"))
-            return call(M.mesh.mesh._instanciate_raw_mesh_data, d)
+            ctor = getattr(M.mesh, normal.class_name) if path == "raw_class" else M.mesh.mesh._instanciate_raw_mesh_data
+            rt = ev.get("retry")
+            if rt == "bad_edge" and not s["eattr"]:
+                # fault 'failed_attempt': a malformed edge row makes the first construction raise; the caller repairs the container
+                # (clear, declare the edges again) and builds again FROM THE SAME raw object.  Only the second result is judged.
+                d.edges += [[2, 1, 0]]
+                first = call(ctor, d)
+                d.edges.clear()
+                if s["edges"]:
+                    d.edges += self._rows("edges", fl, False)
+                self.faults["failed_attempt"] += 1
+                self.probes["first_attempt_raised" if not first.ok else "first_attempt_accepted"] += 1
+            elif rt == "config" and s["cells"] and not s["faces"] and self.sw["cf"]:
+                # the first attempt runs with face completion switched off (cells without faces cannot be prepared); the caller
+                # switches it back on and builds again from the same raw object
+                M.config.complete_faces_from_cells = False
+                try:
+                    first = call(ctor, d)
+                finally:
+                    M.config.complete_faces_from_cells = True
+                self.faults["failed_attempt"] += 1
+                self.probes["first_attempt_raised" if not first.ok else "first_attempt_accepted"] += 1
+                if first.ok:
+                    d = self._fill_raw(fl, None, False)  # (it did not fail: nothing to retry from)
+            return call(ctor, d)
         if path == "two_stage":
             # construction in two stages: the surface part is built first, the finished mesh is wrapped again, the cells are added, and
             # the whole is built again ("building again from an already built mesh", with more data)
